@@ -117,6 +117,7 @@ def showObs : Obs → String
   | .sockClose => "SC"
   | .selClose => "LC"
   | .res r => "R:" ++ showRes r
+  | .tick n => "T:" ++ toString n
   | .incomplete => "INCOMPLETE"
 
 def b2s (b : Bool) : String := if b then "1" else "0"
